@@ -1414,3 +1414,255 @@ def repl_history(cfg=None):
         g = GR(draw, cfg)
         return g.history()
     return strat()
+
+
+# ======================================================================================
+# modules profile (C17): acyclic graphs of files
+# ======================================================================================
+class GMod(G):
+    def __init__(self, draw, cfg=None):
+        G.__init__(self, draw, cfg or Cfg(max_depth=2, p_confuse=0))
+
+    def module(self, idx, earlier):
+        """-> (name, stmts, exports {name: kind})"""
+        name = "m%d" % idx
+        out = [("print", ("str", "run " + name))]
+        exports = {}
+        priv = "priv%d" % idx
+        out.append(("let", priv, ("num", float(self.i(1, 9) * 10))))
+        uses = []
+        seen = set()
+        # imports of earlier modules, drawn form / multiplicity
+        for (ename, eexp) in earlier:
+            if not self.chance(60):
+                continue
+            for _ in range(self.i(1, 2)):
+                before = len(out)
+                u = self.import_of(ename, eexp, out, suffix="_%d" % idx)
+                imp = out[-1]
+                declared = [imp[2][1] or imp[1][-1]] if imp[2][0] == "whole" else [a or n for (n, a) in imp[2][1]]
+                # redeclaring a module level name is a compile error: drop such an import
+                if any(d in seen for d in declared) or len(set(declared)) != len(declared):
+                    del out[before:]
+                    continue
+                seen.update(declared)
+                uses.extend(u)
+        n = self.i(1, 4)
+        for k in range(n):
+            c = self.i(0, 9)
+            ex = self.chance(70)
+            if c < 3:
+                nm = "%s_v%d" % (name, k)
+                val = ("bin", "+", ("num", float(self.i(0, 9))), self.pick(uses)) if uses and self.chance(50) else ("num", float(self.i(0, 99)))
+                s = ("let", nm, val)
+                kind = "num"
+            elif c < 7:
+                nm = "%s_f%d" % (name, k)
+                body = [("expr", ("opassign", "+", ("var", priv), ("num", 1.0))), ("return", ("bin", "+", ("var", priv), self.pick(uses) if uses and self.chance(40) else ("num", float(k))))]
+                s = ("fn", nm, [], body)
+                kind = "fn0"
+            else:
+                nm = "%s_K%d" % (name, k)
+                s = ("class", nm, None, ("init", ["v"], [("expr", ("assign", ("prop", ("self",), "v"), ("var", "v")))]),
+                     [("get", [], [("implicit", ("bin", "+", ("prop", ("self",), "v"), ("var", priv)))])], [])
+                kind = "class"
+            if ex:
+                out.append(("export", s))
+                exports[nm] = kind
+            else:
+                out.append(s)
+                exports.setdefault("!" + nm, kind)  # private marker
+        for u in uses[:2]:
+            out.append(("print", u))
+        return name, out, exports
+
+    def import_of(self, ename, eexp, out, suffix=""):
+        """Append an import of module ename; returns expressions (num valued) that use what was imported."""
+        public = sorted(k for k in eexp if not k.startswith("!"))
+        form = self.i(0, 2)
+        uses = []
+        if form == 0 or not public:
+            alias = None
+            if self.chance(40):
+                alias = "%s_as%d%s" % (ename, self.i(0, 9), suffix)
+            out.append(("import", ["self", ename], ("whole", alias)))
+            obj = ("var", alias or ename)
+            for k in public:
+                uses.append(self.use_of(("prop", obj, k), eexp[k], invoke=(obj, k)))
+        else:
+            picked = [k for k in public if self.chance(60)] or public[:1]
+            syms = []
+            for k in picked:
+                alias = None
+                if self.chance(40):
+                    alias = "%s_r%d%s" % (k, self.i(0, 9), suffix)
+                syms.append((k, alias))
+                uses.append(self.use_of(("var", alias or k + ""), eexp[k]))
+            out.append(("import", ["self", ename], ("syms", syms)))
+        return uses
+
+    def use_of(self, ref, kind, invoke=None):
+        if kind == "num":
+            return ref
+        if kind == "fn0":
+            return ("call", ref, [])
+        return ("call", ("prop", ("call", ref, [("num", 1.0)]), "get"), [])
+
+    def scenario(self):
+        k = self.i(1, 4)
+        mods = []
+        files = {}
+        for idx in range(1, k + 1):
+            name, stmts, exports = self.module(idx, [(n, e) for (n, _s, e) in mods])
+            mods.append((name, stmts, exports))
+            files["/v/%s.lay" % name] = stmts
+        main = [("print", ("str", "run main"))]
+        uses = []
+        seen_names = set()
+        for _ in range(self.i(1, 5)):
+            name, _s, exports = self.pick(mods)
+            before = len(main)
+            u = self.import_of(name, exports, main, suffix="_m%d" % len(main))
+            # duplicate symbol names in one module are a compile error: drop an import that would redeclare
+            imp = main[-1]
+            declared = [imp[2][1] or imp[1][-1]] if imp[2][0] == "whole" else [a or n for (n, a) in imp[2][1]]
+            if any(d in seen_names for d in declared) or len(set(declared)) != len(declared):
+                del main[before:]
+                continue
+            seen_names.update(declared)
+            uses.extend(u)
+            if self.chance(40) and u:
+                main.append(("print", self.pick(u)))
+        for u in uses:
+            main.append(("print", u))
+        neg = self.i(0, 9)
+        if neg == 0:
+            name, _s, exports = self.pick(mods)
+            private = [k[1:] for k in exports if k.startswith("!")]
+            if private:
+                main.append(("import", ["self", name], ("syms", [(self.pick(private), "zz_neg")])))
+                main.append(("print", ("str", "unreachable")))
+        elif neg == 1:
+            main.append(("import", ["self", "nosuchmodule"], ("whole", None)))
+            main.append(("print", ("str", "unreachable")))
+        elif neg == 2:
+            name, _s, exports = self.pick(mods)
+            main.append(("import", ["self", name], ("syms", [("misspelt_zz", None)])))
+            main.append(("print", ("str", "unreachable")))
+        elif neg == 3:
+            name, _s, exports = self.pick(mods)
+            private = [k[1:] for k in exports if k.startswith("!")]
+            if private:
+                alias = "neg_whole"
+                main.append(("import", ["self", name], ("whole", alias)))
+                main.append(("print", ("prop", ("var", alias), self.pick(private))))
+        return {"files": files, "main": main}
+
+
+def modules_program(cfg=None):
+    @st.composite
+    def strat(draw):
+        g = GMod(draw, cfg)
+        return g.scenario()
+    return strat()
+
+
+# ======================================================================================
+# trace profile (C18): call chains with pinned lines
+# ======================================================================================
+class GT(G):
+    def __init__(self, draw, cfg=None):
+        G.__init__(self, draw, cfg or Cfg(max_depth=2, p_confuse=0))
+
+    def filler(self):
+        """0-2 harmless statements (they shift the lines of what follows)."""
+        out = []
+        for _ in range(self.i(0, 2)):
+            v = self.fresh("t")
+            out.append(("let", v, ("num", float(self.i(0, 9)))))
+        return out
+
+    def scenario(self):
+        depth = self.i(1, 6)
+        out = []
+        out.extend(self.filler())
+        # error classes
+        out.append(("class", "MyErr", "Error", None, [], []))
+        out.append(("class", "SubErr", "MyErr", None, [], []))
+        # innermost action
+        act = self.i(0, 9)
+        if act < 5:
+            cls = self.pick(["Error", "MyErr", "SubErr", "ValueError", "TypeError"])
+            if self.chance(30):
+                raise_stmt = ("raise", ("call", ("var", cls), [("str", "msg%d" % self.i(0, 9)), ("call", ("var", "Error"), [("str", "inner%d" % self.i(0, 9))])]))
+            else:
+                raise_stmt = ("raise", ("call", ("var", cls), [("str", "msg%d" % self.i(0, 9))]))
+            inner = self.filler() + [raise_stmt]
+            kind = "raise"
+        elif act < 8:
+            fault = self.pick([("bin", "+", ("nil",), ("num", 1.0)), ("index", ("list", [("num", 1.0)]), ("num", 7.0)),
+                               ("call", ("prop", ("num", 1.0), "nope"), []), ("call", ("num", 3.0), [])])
+            inner = self.filler() + [("expr", fault)]
+            kind = "fault"
+        elif act < 9:
+            inner = self.filler() + [("expr", ("call", ("var", "exit"), [("num", float(self.i(0, 40)))]))]
+            kind = "exit"
+        else:
+            inner = self.filler() + [("print", ("str", "no error"))]
+            kind = "none"
+        # build the chain from the innermost frame outwards
+        call = None  # expression that calls the previous level
+        names = []
+        for lvl in range(depth):
+            body = inner if lvl == 0 else self.filler() + [("expr", call)] + self.filler()
+            shape = self.i(0, 6) if not (kind == "exit" and False) else 0
+            nm = "lv%d" % lvl
+            if shape <= 1:
+                out.append(("fn", nm, ["a"], body))
+                call = ("call", ("var", nm), [("num", float(lvl))])
+            elif shape == 2:
+                out.append(("class", "C" + nm, None, None, [(nm, [], body)], []))
+                call = ("call", ("prop", ("call", ("var", "C" + nm), []), nm), [])
+            elif shape == 3:
+                out.append(("class", "I" + nm, None, ("init", [], body), [], []))
+                call = ("call", ("var", "I" + nm), [])
+            elif shape == 4:
+                out.append(("let", nm, ("lambda", ["x"], ("block", body))))
+                call = ("call", ("var", nm), [("num", 1.0)])
+            elif shape == 5:
+                out.append(("class", "S" + nm, None, None, [], [(nm, [], body)]))
+                call = ("call", ("prop", ("var", "S" + nm), nm), [])
+            else:
+                # through a native callback (each has a stub frame, map..list does not)
+                out.append(("fn", nm, ["x"], body))
+                if kind == "exit":
+                    call = ("call", ("var", nm), [("num", 0.0)])
+                elif self.chance(50):
+                    call = ("call", ("prop", ("call", ("prop", ("list", [("num", 1.0)]), "iter"), []), "each"), [("var", nm)])
+                else:
+                    call = ("call", ("prop", ("call", ("prop", ("call", ("prop", ("list", [("num", 1.0)]), "iter"), []), "map"), [("var", nm)]), "list"), [])
+            out.extend(self.filler())
+            names.append(nm)
+        # catch depth: where (if anywhere) the error is caught. Catching happens at module level around the outermost call
+        c = self.i(0, 9)
+        report = [("print", ("prop", ("var", "e"), "message")),
+                  ("if", ("bin", "!=", ("prop", ("var", "e"), "inner"), ("nil",)), [("print", ("prop", ("prop", ("var", "e"), "inner"), "message"))], None),
+                  ("for", "bt", ("prop", ("var", "e"), "backTrace"),
+                   [("if", ("un", "!", ("call", ("prop", ("var", "bt"), "has"), [("str", "native:")])), [("print", ("var", "bt"))], None)])]
+        if c < 5 and kind in ("raise", "fault"):
+            out.append(("try", self.filler() + [("expr", call)], [("e", None, report)]))
+            out.append(("print", ("str", "after")))
+        else:
+            out.append(("expr", call))
+            out.append(("print", ("str", "end")))
+        if self.chance(15):
+            out.append(("for", "k", ("call", ("prop", ("num", 400.0), "times"), []), [("print", ("interp", ["line ", ("var", "k")])), ("print", ("str", "x")), ("print", ("str", "y"))]))
+        return out
+
+
+def trace_program(cfg=None):
+    @st.composite
+    def strat(draw):
+        g = GT(draw, cfg)
+        return g.scenario()
+    return strat()
